@@ -245,7 +245,7 @@ class _Stall:                                       # pylint: disable=too-few-pu
         return self.option if (".l" in label and self.option < arity) else 0
 
 
-STALL_PROFILE = Profile(latency=(0, 1, 3))
+STALL_PROFILE = Profile(latency=(0, 1, 3, 24))
 STALL_BUDGET = 12                   # slow-board repeats per (layer, helper) and chunk
 _STALLED = {}
 
@@ -422,14 +422,19 @@ def slow_session(layer, stall, length):
             obj, port, _board = new_object(chooser, profile,
                                            board=EBB3Board(future=True, nickname="Axi"))
         done = 0
+        from ..fakeserial import VirtualClock   # pylint: disable=import-outside-toplevel
         try:
-            for k in range(length):
-                name, args = (LEGACY_SESSION if layer == "legacy" else SESSION)[k % 7]
-                if layer == "legacy":
-                    getattr(mod, name)(port, *args)
-                else:
-                    getattr(obj, name)(*args)
-                done += 1
+            # the slow board is slow in time as well: every empty read blocks for 1.6 x the
+            # port's timeout on a virtual clock (the allowance is counted in reads, not seconds)
+            with VirtualClock() as clock:
+                port.clock = clock if delay else None
+                for k in range(length):
+                    name, args = (LEGACY_SESSION if layer == "legacy" else SESSION)[k % 7]
+                    if layer == "legacy":
+                        getattr(mod, name)(port, *args)
+                    else:
+                        getattr(obj, name)(*args)
+                    done += 1
         except Exception as err:            # pylint: disable=broad-except
             exc = err
         runs.append((list(port.write_attempts), exc, getattr(obj, "err", None), done))
@@ -440,7 +445,8 @@ def slow_session(layer, stall, length):
         first = next((i for i, (a, b) in enumerate(zip(raw_0, raw_1)) if a != b),
                      min(len(raw_0), len(raw_1)))
         return [f"{layer} session of {length} helper calls on one object against a board that "
-                f"answers every request after {(0, 1, 3)[stall]} empty read(s): {len(raw_1)} "
+                f"answers every request after {(0, 1, 3, 24)[stall]} empty read(s), each blocking for "
+                f"1.6 x the port timeout: {len(raw_1)} "
                 f"requests went out instead of {len(raw_0)} (first difference at request "
                 f"{first}), exception {exc_1!r}, recorded error {err_1!r}, calls completed "
                 f"{done_1}"]
@@ -536,8 +542,8 @@ def run(ctx):
                 jobs.append(("ebb3", helper, chunk))
     part.merge(core.fan_out(ctx, _chunk, jobs))
     for layer in ("legacy", "ebb3"):
-        for stall in (1, 2):
-            for length in (30, 70) + ((400,) if ctx.thorough else ()):
+        for stall in (1, 2, 3):
+            for length in ((30, 70) + ((400,) if ctx.thorough else ())) if stall < 3 else (9,):
                 for msg in slow_session(layer, stall, length):
                     part.violation(f"slow_session:{layer}:{stall}:{length}", msg,
                                    {"kind": "slow_session", "layer": layer, "stall": stall,
